@@ -78,8 +78,9 @@ def run_cases(ctx, cases):
             m = model.get(c["id"])
             if m:
                 for side in ("model", "spec"):
-                    if "trace" in m[side]:
-                        m[side]["trace"] = " ".join(t for t in m[side]["trace"].split() if t != "s")
+                    for tk in ("trace", "trace2", "trace3"):
+                        if tk in m[side]:
+                            m[side][tk] = " ".join(t for t in m[side][tk].split() if t != "s")
     return impl, model
 
 
